@@ -33,6 +33,9 @@ given, or a value a path condition equates with size(); a caller-chosen size aga
 violation (R-C11-6).  A new-expression is a point where the function can be left by an exception: an existing object
 whose owner was already released / changed at that point is a violation (R-C11-2).  A DataView (re)initialiser that takes
 only the data pointer sets the stride to the dense default; leaving the previous stride is a violation (R-C11-5).
+R-C11-2 also: setPtr(<the pointer the base already holds>, n) after an owner change is accepted only when the path establishes that
+this stored pointer equals the owner's data() (non-const helpers of AbstractArray other than setPtr are followed).  R-C11-6 also: a
+member that adopts a source on some paths does so on every returning path (no early exit decided by the source alone).
 R-C11-5 also decides typed indexing through a member precomputed from the stride: ((const T*)ptr)[index * (stride / sizeof(T))]
 under a test stride % A == 0 is the element at ptr + index*stride only if A is a multiple of sizeof(T).
   R-C11-8  the destructor of AbstractArray - the interface owning wrappers are handled and destroyed through - is virtual, or not
@@ -77,8 +80,13 @@ def follow_c11(f):
     functions of rkcommon; AbstractArray's own members stay named calls (setPtr is the event the rules are about, the
     accessors are single-expression functions whose value is substituted anyway)"""
     rec = f.get('rec')
+    if rec == ABS:
+        # non-const helpers of the base other than setPtr itself (e.g. a setSize() that forwards to setPtr) are followed, so that the
+        # setPtr they end in is seen with its arguments; constructors / assignment of the base are events of their own
+        return not f.get('const') and not f.get('ctor') and not f.get('dtor') and not f.get('assign') \
+            and last(strip_targs(f['q'])) != 'setPtr'
     if rec:
-        return rec.startswith(NS) and rec != ABS
+        return rec.startswith(NS)
     return f['q'].startswith('rkcommon::')
 
 
@@ -354,6 +362,8 @@ class WrapperAnalysis:
                 if isinstance(o, tuple) and o and o[0] == 'field' and o[1] in tracked and o[2] in own:
                     k, inner = own[o[2]]
                     return dict(kind='own' if o[1] == X else 'other', obj=o[1], owner=o[2], okind=k, offset=off)
+                if o == X:
+                    return dict(kind='self', obj=o, offset=off)      # the pointer the base already holds
                 if o in tracked and o != X:
                     return dict(kind='view-of', obj=o, offset=off)
                 if isinstance(o, tuple) and o and (o[0] == 'param' or (o[0] == 'deref' and isinstance(o[1], tuple) and o[1][0] == 'param')):
@@ -728,6 +738,38 @@ class WrapperAnalysis:
                     return
             st[X] = 'S'
             return
+        if k == 'self':
+            # setPtr(<the pointer already stored>, n): only the size changes
+            vecs = [(M_, k_) for M_, k_, i_ in owners if k_ == 'vec']
+            if c.get('offset') or not owners:
+                findings.append(Finding('R-C11-1', 'provenance', 'setPtr re-uses the stored pointer `%s` with an offset / without an owner' % show(pu), ev.node, True))
+                return
+            if st[X] in ('D', 'E', 'A'):
+                # the owner changed since the pointer was stored: keeping it is right only if the path has established that it still is
+                # the owner's data()
+                same = False
+                for M_, k_ in vecs:
+                    dd = ('call', 'std::vector::data', ('field', X, M_))
+                    if path.cond_of(tuple(['eq'] + sorted([dd, pu], key=repr))) is True:
+                        same = True
+                if not same:
+                    d_ = dirty_by.get(X)
+                    findings.append(Finding('R-C11-2', 'pointer-not-rederived',
+                                            'after `%s` changed the owner the view keeps the pointer the base already held (`setPtr(%s, %s)`) instead of '
+                                            're-reading it from the owner, and the path does not establish that this stored pointer equals the owner\'s '
+                                            'data() (path conditions: %s). The stored pointer is nullptr whenever the array was empty (setPtr normalises it), '
+                                            'so growing again inside the capacity yields a positive size with a null data()'
+                                            % (self.tu.show(d_.node) if d_ is not None and d_.node else '?', show(pu), show(nu),
+                                               ', '.join('%s is %s' % (show(c_), p_) for c_, p_, _n in path.conds) or 'none'), ev.node))
+                    return
+            for M_, k_ in vecs:
+                want = ('call', 'std::vector::size', ('field', X, M_))
+                if nu != want:
+                    findings.append(Finding('R-C11-6', 'view-not-whole-owner', 'the size is set to `%s`, not to %s.size()' % (show(nu), M_), ev.node,
+                                            not (nu[0] == 'const' or contains(nu, want))))
+                    return
+            st[X] = 'S'
+            return
         if k == 'view-of':
             if owners:
                 findings.append(Finding('R-C11-1', 'aliases-other-object', '%s owns its storage but setPtr(%s, ...) takes the view of another array' % (cname, show(pu)), ev.node))
@@ -923,6 +965,30 @@ def check_wrappers(ctx, tu, tag=''):
             # exit states
             exit_bad = False
             this = ('this',)
+            # an operation that adopts a source (pointer / container parameter) does so on every returning path: a path that leaves
+            # the array untouched because of a test of the source alone keeps the old size and contents
+            if not generated and owners and f.get('access') in (None, 'public', 'none') and not f.get('ctor') and outs:
+                elem_t = m.elem(r).get('t')
+                srcs = [('param', i_, p_.get('name') or '') for i_, p_ in enumerate(f.get('params', []))
+                        if norm_type(p_['ct']) == '%s *' % elem_t or norm_type(p_['ct']).startswith('std::vector<%s' % elem_t)
+                        or norm_type(p_['ct']).startswith('std::array<%s' % elem_t)]
+                adopting = [o for o in outs if o['did_setptr'].get(this)]
+                idle = [o for o in outs if not o['did_setptr'].get(this) and not o['mutated'].get(this)]
+                if srcs and adopting and idle:
+                    for o in idle:
+                        conds = [unver(c_) for c_, _p, _n in o['path'].conds]
+                        about_src = conds and all(any(contains(c_, sp) for sp in srcs) and not contains(c_, this) for c_ in conds)
+                        txt = ', '.join('%s is %s' % (show(c_), p_) for c_, p_, _n in o['path'].conds)
+                        if about_src:
+                            ctx.violation('R-C11-6', inst, 'on the path [%s] the function returns without touching the array, while its other paths adopt the '
+                                          'source (allocate / copy / setPtr): for such a source the array keeps its previous size and contents instead of '
+                                          'becoming a copy of it (an empty source must give an empty array)' % txt, loc,
+                                          key='%s|%s|%s|source-not-adopted' % ('R-C11-6', file, pname),
+                                          path=['%s (%s)' % (f['q'], loc), 'returns through blocks %s without setPtr' % (list(o['path'].blocks),)])
+                        else:
+                            ctx.undecided('R-C11-6', inst, 'a path [%s] leaves the array untouched while others adopt the source' % txt, loc)
+                        exit_bad = True
+                        break
             if not generated and owners and f.get('access') in (None, 'public', 'none'):
                 for o in outs:
                     for X, s in o['states'].items():
